@@ -65,3 +65,38 @@ contract(f"{M}:pack_header_extensions",
                 2: dict(kind="for", index="i", invariant=["len(extension_value) >= 2 * i"])},
          tags=["C07"],
          witness=[{"extensions": [(1, b"\x01\x02"), (15, b"")]}])
+
+# C07: what HeaderExtensionsMap.set hands to pack_header_extensions is, for every configured extension, a value of exactly
+# the size HeaderExtensionsMap.get accepts (3 / 3 / 1 / 2 bytes; F-10: toffset was written with 2 bytes), under the id the
+# table assigns to it. Ids are pairwise distinct, as configure() assigns them from distinct SDP extmap lines.
+_FIXED = ["abs_send_time", "transmission_offset", "audio_level", "transport_sequence_number"]
+_ALL = ["mid", "repaired_rtp_stream_id", "rtp_stream_id"] + _FIXED
+_IDS = "self.__ids"
+_distinct = [f"implies({_IDS}.{a} is not None and {_IDS}.{b} is not None, {_IDS}.{a} != {_IDS}.{b})"
+             for i, a in enumerate(_ALL) for b in _ALL[i + 1:]]
+_in_range = [f"implies({_IDS}.{a} is not None, 0 <= {_IDS}.{a} < 256)" for a in _ALL]
+_SIZE = {"abs_send_time": 3, "transmission_offset": 3, "audio_level": 1, "transport_sequence_number": 2}
+contract(f"{M}:HeaderExtensionsMap.set", params={"values": "HeaderExtensions"},
+         returns="tuple[int,bytes]",
+         requires=_distinct + _in_range + [
+             "implies(values.abs_send_time is not None, 0 <= values.abs_send_time < 16777216)",
+             "implies(values.transmission_offset is not None, -8388608 <= values.transmission_offset < 8388608)",
+             "implies(values.audio_level is not None, 0 <= values.audio_level[1] < 128)",
+             "implies(values.transport_sequence_number is not None, 0 <= values.transport_sequence_number < 65536)",
+             "implies(values.mid is not None, len(utf8(values.mid)) < 256)",
+             "implies(values.repaired_rtp_stream_id is not None, len(values.repaired_rtp_stream_id) < 256)",
+             "implies(values.rtp_stream_id is not None, len(values.rtp_stream_id) < 256)"],
+         ensures=["len(result[1]) % 4 == 0", "0 <= result[0] < 65536"],
+         at_call={"pack_header_extensions": [
+             "forall(lambda j: 0 < extensions[j][0] < 256 and len(extensions[j][1]) < 256, 0, len(extensions))"] + [
+             f"forall(lambda j: implies(extensions[j][0] == {_IDS}.{f}, len(extensions[j][1]) == {n}), 0, len(extensions))"
+             for f, n in _SIZE.items()]},
+         # a stream id that is not ASCII is refused with UnicodeEncodeError, a ValueError
+         raises={"ValueError": None},
+         locals={"extensions": "list[tuple[int,bytes]]"},
+         tags=["C07"],
+         witness=[{"self": {"$class": "HeaderExtensionsMap", "_HeaderExtensionsMap__ids": {
+                       "$class": "HeaderExtensionsIds", "abs_send_time": 1, "transmission_offset": 2, "audio_level": 3,
+                       "transport_sequence_number": 4, "mid": 5}},
+                   "values": {"$class": "HeaderExtensions", "abs_send_time": 7, "transmission_offset": -5,
+                              "audio_level": (True, 30), "transport_sequence_number": 9, "mid": "a"}}])
